@@ -8,7 +8,7 @@ import re
 import z3
 
 from pyvc.ty import (INT, BOOL, STR, BYTES, FLOAT, NONE, VAL, ANYFUNC, Ref, ListT, DictT, TupleT, sort_of)
-from pyvc.engine import SV, Exc, Unsupported, CLS, BITS, I, B, S, fresh
+from pyvc.engine import pystr, SV, Exc, Unsupported, CLS, BITS, I, B, S, fresh
 from pyvc import engine as E
 from pyvc import builtins as BI
 
@@ -99,6 +99,8 @@ CLASSES['CoderState']['ghost_facts'] = {'nprims': lambda z: z >= 0}       # a ca
 CLASSES.update({
     'Coder': dict(bases=[], module='pybufrkit.coder', fields={}),
     'BitOperator': dict(bases=[], fields={}),
+    'Decoder': dict(bases=['Coder'], module='pybufrkit.decoder', fields={}),
+    'Encoder': dict(bases=['Coder'], module='pybufrkit.encoder', fields={'ignore_declared_length': BOOL}),
 })
 
 
@@ -184,7 +186,7 @@ def parse_fmt(sv):
         zs = z3.simplify(sv.z)
         if not z3.is_string_value(zs):
             return None
-        tmpl, args = zs.as_string(), []
+        tmpl, args = pystr(zs), []
     m = FMT_RE.match(tmpl)
     if not m:
         return None
